@@ -107,6 +107,8 @@ Record hstep := {
   hs_env_before : alist;
   hs_kind : N;                        (* 1 = an exception propagated, 2 = returned (early at the gate, or at the end) *)
   hs_args : option (list str);        (* installer arguments, if the installer was called *)
+  hs_rec_start : alist;               (* live / persisted record when the pass starts, i.e. after the restarts, YAML *)
+  hs_pers_start : alist;              (* re-imports and reloads that the history puts before this pass *)
   hs_rec_after : alist;               (* CONF_INSTALLED_PACKAGES of the live config entry object after the run *)
   hs_persisted : alist;               (* the record as last handed to async_update_entry (what survives a restart) *)
   hs_updated : bool;                  (* async_update_entry was called *)
@@ -126,6 +128,8 @@ Definition step_matches (o : step_out) (h : hstep) : bool :=
   && match so_out o with
      | OGated => N.eqb (hs_kind h) 2 && negb (hs_updated h) && match hs_args h with None => true | Some _ => false end
      | ORaised => N.eqb (hs_kind h) 1 && negb (hs_updated h) && match hs_args h with None => true | Some _ => false end
+     | OFailed todo => N.eqb (hs_kind h) 1 && negb (hs_updated h)
+                       && match hs_args h with Some l => list_eqb str_eqb (map req_string todo) l | None => false end
      | ODone todo _ u =>
          N.eqb (hs_kind h) 2 && Bool.eqb u (hs_updated h)
          && match todo, hs_args h with
@@ -167,12 +171,24 @@ Fixpoint m_obs (rec : alist) (ins : list step_in) (outs : list step_out) : list 
       (si_files i, table_otable (so_table o),
        {| ro_allow := si_allow i; ro_env_before := so_env_before o; ro_rec_before := rec;
           ro_done := match so_out o with ODone _ _ _ => true | _ => false end;
-          ro_args := match so_out o with ODone (p :: todo) _ _ => Some (map req_string (p :: todo)) | _ => None end;
+          ro_args := match so_out o with
+                     | ODone (p :: todo) _ _ => Some (map req_string (p :: todo))
+                     | OFailed todo => Some (map req_string todo)
+                     | _ => None
+                     end;
           ro_rec_after := so_rec o; ro_env_after := so_env_after o |}) :: m_obs (so_rec o) ins' outs'
   | _, _ => []
   end.
 
-Definition hcase_spec_ok (c : hcase) : bool := hspec_on (hc_ranks c) (h_obs (hc_rec0 c) (hc_steps c)).
+(* the record survives whatever happens between two passes (Home Assistant restart with the YAML import flow, reload
+   of the YAML configuration): when a pass starts, the live and the persisted record are what the previous pass left *)
+Fixpoint h_survives (rec : alist) (steps : list hstep) : bool :=
+  match steps with
+  | [] => true
+  | h :: r => dict_same (hs_rec_start h) rec && dict_same (hs_pers_start h) rec && h_survives (hs_persisted h) r
+  end.
+Definition hcase_spec_ok (c : hcase) : bool :=
+  hspec_on (hc_ranks c) (h_obs (hc_rec0 c) (hc_steps c)) && h_survives (hc_rec0 c) (hc_steps c).
 Definition hcase_model_spec (cfg : deviations) (c : hcase) : bool :=
   hspec_on (hc_ranks c) (m_obs (hc_rec0 c) (map hs_in (hc_steps c)) (h_run cfg c)).
 Definition hcase_attrib (cfg : deviations) (c : hcase) : list nat :=
@@ -183,6 +199,7 @@ Definition show_out (o : outcome) :=
   | OGated => (0%N, @nil str, false)
   | ORaised => (1%N, [], false)
   | ODone todo _ u => (2%N, map req_string todo, u)
+  | OFailed todo => (4%N, map req_string todo, false)
   end.
 Definition hcase_explain (cfg : deviations) (c : hcase) :=
   map (fun o => (table_rows (so_table o), show_out (so_out o), so_rec o, so_env_after o)) (h_run cfg c).
